@@ -138,10 +138,22 @@ func (o *orC08) onIterLeave(it *iterRec) {
 			anyMut = true
 		}
 	}
+	// (the daemon restarts its own postponement clock whenever it has seen a live group)
+	if before.mayBeSafe() || after.mayBeSafe() {
+		delete(o.firstUnreach, it.inc)
+	}
 	// ---- must not touch (held at both ends of the window)
 	if before.mustNotTouch() && after.mustNotTouch() {
 		m.probe("c08_class_must_not_touch")
-		if anyMut {
+		// a probe of a replica that failed (or whose answer was lost) legitimately lowers the
+		// count the daemon sees
+		probesOK := true
+		for _, e := range it.sql {
+			if e.Src == it.inc && !e.Mutating && !e.toldOK() {
+				probesOK = false
+			}
+		}
+		if anyMut && probesOK {
 			why := "master with a live group"
 			switch {
 			case before.notHA:
@@ -192,7 +204,7 @@ func (o *orC08) onIterLeave(it *iterRec) {
 		}
 		o.mustFenceRun[it.inc]++
 		if o.mustFenceRun[it.inc] >= 2 && it.faults == 0 {
-			m.violate("C08", "not_fenced", "lost-node-not-fenced", fmt.Sprintf("%s on %s: %d consecutive Lost iterations without a read-only attempt although isMaster=%v live=%d need=%d unreachable=%v", it.inc, L, o.mustFenceRun[it.inc], after.isMaster, after.live, after.needLenient, after.unreach))
+			m.violate("C08", "not_fenced", "lost-node-not-fenced", fmt.Sprintf("%s on %s: %d consecutive Lost iterations without a read-only attempt although isMaster=%v live=%d need=%d unreachable=%v (first saw a replica unreachable at %v)", it.inc, L, o.mustFenceRun[it.inc], after.isMaster, after.live, after.needLenient, after.unreach, o.firstUnreach[it.inc]))
 		}
 		return
 	}
